@@ -1,4 +1,4 @@
-use crate::api::{server_error_to_actix, ServerState, SNAPSHOT_CONTENT_TYPE};
+use crate::api::{check_body_complete, server_error_to_actix, ServerState, SNAPSHOT_CONTENT_TYPE};
 use actix_web::{error, post, web, HttpMessage, HttpRequest, HttpResponse, Result};
 use futures::StreamExt;
 use std::sync::Arc;
@@ -45,6 +45,7 @@ pub(crate) async fn service(
     if body.is_empty() {
         return Err(error::ErrorBadRequest("No snapshot supplied"));
     }
+    check_body_complete(&req, body.len())?;
 
     server_state
         .server
